@@ -2,6 +2,8 @@ package main
 
 import (
 	"fmt"
+	"go/constant"
+	"go/token"
 	"go/types"
 	"sort"
 	"strings"
@@ -457,4 +459,168 @@ func ruleNextAdvances(c *Ctx, r *Report) {
 		r.bad(rule, "scan/readers", "-", "locate the reader of the token ring", "no function calls tokenRingBuffer.get")
 	}
 	r.analysed(rule, fmt.Sprintf("%d readers of the token ring", n))
+}
+
+// ---------------------------------------------------------------------------
+// R-RING-STICKY (C19; added with fix F21): the lexer may ask for another rune after its source has
+// reported the end (a token that ends at the end of the input is recognised by the failed look-ahead, and
+// the layout before the end of file is skipped rune by rune). For a stream, the second physical read after
+// the end IS "reading past the end": with eof_action(error) it raises the permission error during the very
+// read that should have delivered end_of_file. So the lexer's window keeps the failure of its source:
+//   (1) the source is read only under the fact that no failure has been recorded;
+//   (2) every path on which the source's read failed records the failure before returning it.
+
+func ruleRingSticky(c *Ctx, r *Report) {
+	const rule = "R-RING-STICKY"
+	n := 0
+	for _, fn := range c.LibFuncs() {
+		if fn.Signature.Recv() == nil || !isEngNamed(deref(fn.Signature.Recv().Type()), "runeRingBuffer") {
+			continue
+		}
+		eachInstr(fn, func(in ssa.Instruction) {
+			call, ok := in.(*ssa.Call)
+			if !ok || !call.Call.IsInvoke() || call.Call.Method.Name() != "ReadRune" {
+				return
+			}
+			n++
+			key := fname(fn) + "/source-read"
+			// (1)
+			guarded := false
+			var errField *ssa.FieldAddr
+			for f := range c.factsAt(in.Block()) {
+				bo, ok := f.cond.(*ssa.BinOp)
+				if !ok || (bo.Op != token.EQL && bo.Op != token.NEQ) {
+					continue
+				}
+				for _, pair := range [][2]ssa.Value{{bo.X, bo.Y}, {bo.Y, bo.X}} {
+					ld, ok := pair[0].(*ssa.UnOp)
+					if !ok || ld.Op != token.MUL {
+						continue
+					}
+					fa, ok := ld.X.(*ssa.FieldAddr)
+					if !ok || !isErrorType(ld.Type()) {
+						continue
+					}
+					k, isConst := pair[1].(*ssa.Const)
+					if isConst && k.Value == nil && (bo.Op == token.EQL) == f.pol {
+						guarded = true
+						errField = fa
+					}
+				}
+			}
+			desc1 := "the lexer's window reads its source only while no failure of the source has been recorded"
+			if guarded {
+				r.ok(rule, key, c.at(in), desc1, "reached only under <recorded failure> == nil", true)
+			} else {
+				r.bad(rule, key, c.at(in), desc1, "the source is read again after it has failed: on a stream the second read after the end is 'past the end' and eof_action(error) raises instead of end_of_file being delivered")
+				return
+			}
+			// (2)
+			var errVal ssa.Value
+			if refs := call.Referrers(); refs != nil {
+				for _, ref := range *refs {
+					if ex, ok := ref.(*ssa.Extract); ok && isErrorType(ex.Type()) {
+						errVal = ex
+					}
+				}
+			}
+			desc2 := "a failure of the source is recorded before it is returned"
+			if errVal == nil {
+				r.bad(rule, fname(fn)+"/record", c.at(in), desc2, "the error result of the source's read is dropped")
+				return
+			}
+			isRecord := func(x ssa.Instruction) bool {
+				st, ok := x.(*ssa.Store)
+				if !ok {
+					return false
+				}
+				fa, ok := st.Addr.(*ssa.FieldAddr)
+				return ok && fa.Field == errField.Field && fa.X == errField.X && st.Val == errVal
+			}
+			miss := errStateReachX(in, errVal, func(x ssa.Instruction) bool {
+				_, isRet := x.(*ssa.Return)
+				return isRet
+			}, isRecord, false, nil, true)
+			if miss == nil {
+				r.ok(rule, fname(fn)+"/record", c.at(in), desc2, "every return after a failed read passes through the store into the failure field", true)
+			} else {
+				r.bad(rule, fname(fn)+"/record", c.at(miss), desc2, "this return is reachable after a failed read without recording the failure")
+			}
+		})
+	}
+	if n == 0 {
+		r.bad(rule, "scan/source-read", "-", "locate the read of the lexer's source", "no method of runeRingBuffer invokes ReadRune on its source")
+	}
+	r.analysed(rule, fmt.Sprintf("%d reads of the source in the lexer's window", n))
+}
+
+// ---------------------------------------------------------------------------
+// R-UNREAD-EOF (C19; added with fix F21): looking ahead at the end of a stream (read_term/3 checks what
+// follows the end token) takes the stream past its end; giving the look-ahead back has to take it back to
+// "at the end", otherwise the stream is past its end although end_of_file was never delivered and
+// eof_action(error) raises at the next read. Checked: Stream.UnreadRune stores endOfStreamAt into the
+// end-of-stream state under the fact that the state is endOfStreamPast.
+
+func ruleUnreadEOF(c *Ctx, r *Report) {
+	const rule = "R-UNREAD-EOF"
+	un := c.method("Stream", "UnreadRune")
+	eos := c.engType("endOfStream")
+	if un == nil || eos == nil {
+		r.undecided(rule, "anchor", "-", "locate Stream.UnreadRune and the endOfStream enumeration", "not found")
+		return
+	}
+	vals := map[string]int64{}
+	if e := c.enumOf(eos); e != nil {
+		for _, k := range e.consts {
+			v, _ := constant.Int64Val(k.Val())
+			vals[k.Name()] = v
+		}
+	}
+	at, okAt := vals["endOfStreamAt"]
+	past, okPast := vals["endOfStreamPast"]
+	if !okAt || !okPast {
+		r.undecided(rule, "anchor:endOfStreamAt", "-", "locate endOfStreamAt/endOfStreamPast", "not found")
+		return
+	}
+	var hit ssa.Instruction
+	eachInstr(un, func(in ssa.Instruction) {
+		st, ok := in.(*ssa.Store)
+		if !ok {
+			return
+		}
+		fa, ok := st.Addr.(*ssa.FieldAddr)
+		if !ok || fieldName(fa) != "endOfStream" {
+			return
+		}
+		if k, ok := constInt(st.Val); !ok || k != at {
+			return
+		}
+		for f := range c.factsAt(in.Block()) {
+			bo, ok := f.cond.(*ssa.BinOp)
+			if !ok || (bo.Op != token.EQL && bo.Op != token.NEQ) || (bo.Op == token.EQL) != f.pol {
+				continue
+			}
+			for _, pair := range [][2]ssa.Value{{bo.X, bo.Y}, {bo.Y, bo.X}} {
+				ld, ok := pair[0].(*ssa.UnOp)
+				if !ok || ld.Op != token.MUL {
+					continue
+				}
+				fa2, ok := ld.X.(*ssa.FieldAddr)
+				if !ok || fieldName(fa2) != "endOfStream" {
+					continue
+				}
+				if k, ok := constInt(pair[1]); ok && k == past {
+					hit = in
+				}
+			}
+		}
+	})
+	key := fname(un) + "/past-to-at"
+	desc := "un-reading a look-ahead that found the end takes the stream from past-the-end back to at-the-end"
+	if hit != nil {
+		r.ok(rule, key, c.at(hit), desc, "endOfStream = endOfStreamAt under endOfStream == endOfStreamPast", true)
+	} else {
+		r.bad(rule, key, c.Pos(un.Pos()), desc, "no such transition: after 'foo.' directly followed by the end, the stream is past its end before end_of_file was delivered; with eof_action(error) the next read raises instead")
+	}
+	r.analysed(rule, fname(un))
 }
